@@ -1151,7 +1151,9 @@ func (m *MapPollard) ingest(delHashes []Hash, proof Proof) error {
 
 	// Calculate and ingest the proof.
 	proofPos, _ := ProofPositions(hnp.positions, m.NumLeaves, m.TotalRows)
-	if TreeRows(m.NumLeaves) != m.TotalRows && len(proofPos) != len(proof.Proof) {
+	// Only trim when there are fewer proof hashes than positions. A proof may carry
+	// trailing hashes that aren't used and those must not make us drop positions.
+	if TreeRows(m.NumLeaves) != m.TotalRows && len(proofPos) > len(proof.Proof) {
 		proofPos = m.trimProofPos(proofPos, m.NumLeaves)
 	}
 	for i, pos := range proofPos {
